@@ -52,8 +52,19 @@ def status():
                     len([e for e in kf if e['property'] == p and e['status'] == 'fixed'])))
     return '\n'.join(rows)
 
+def fixes():
+    kf = json.load(open('known_findings.json'))['findings']
+    rows = ['| property | commit | defect |', '|---|---|---|']
+    for e in kf:
+        if e.get('status') == 'fixed':
+            line = e.get('line', '')
+            m = re.match(r'fixed: property=\S+ (\S+) (.*)$', line, re.S)
+            rows.append('| %s | %s | %s |' % (e['property'], e.get('commit') or (m.group(1) if m else '?'),
+                        ' '.join((m.group(2) if m else line).split()).replace('|', '\\|')))
+    return '\n'.join(rows)
+
 s = open('DESIGN.md').read()
-for name, fn in (('seeds', seeds), ('status', status)):
+for name, fn in (('seeds', seeds), ('status', status), ('fixes', fixes)):
     a, b = '<!-- GEN:%s -->' % name, '<!-- /GEN:%s -->' % name
     if a in s:
         s = s[:s.index(a) + len(a)] + '\n' + fn() + '\n' + s[s.index(b):]
